@@ -62,6 +62,13 @@ CLAIMS["C11"] = ("one-sided comparison guards with operand provenance, effect co
     "Static decision for the three English-auction implementations and the limit-bid API: a bid is taken only behind a one-sided comparison with a value derived from the stored standing bid in the direction of the auction type; the outbid bidder is refunded (recipient and coins both from the stored record) on every success path with a previous bid; at close, coins go to the stored bidder and are the stored bid or lot; message-named amounts/denominations leave custody only behind requested <= recorded and denom equality; the limit-bid record and the protocol total change by the custody amount and the record is read under the key it is stored under. NOT covered: that custody equals the standing bid as a number, auction timing, totals over bid sequences.",
     "DESIGN.md §3 C11")
 
+CLAIMS["C07"] = ("site guards on settlement payouts, refund provenance, loop-exit analysis of the market-making cancel, enumeration of rejection reasons, identifier-kind agreement, escrow-on-placement co-occurrence",
+    "Static decision of the settlement shape of orders: FinishOrder/FinishMMOrder pay the refund only when the order is not yet terminal (both status tests), from the escrow of the order's own (app, pair) to the stored orderer, built from RemainingOfferCoin, and store the terminal status; orders become terminal only through them; cancelling market-making orders visits every indexed id before deleting the index; ValidateMsgCancelOrder rejects only for the allowed reasons; ids of different kinds are not interchanged (the fixed GetOrder(pair, app) swap); new orders are stored only on paths that escrow coins. NOT covered: the per-order money identity across batches, fee arithmetic.",
+    "DESIGN.md §3 C07")
+CLAIMS["C04"] = ("escrow-on-creation co-occurrence, once-only refund guards with provenance, bounded release, who-may-mint/burn rule with must-reach disable test, loop-carried accumulator rule",
+    "Static decision of the custody discipline of the liquidity module: requests and orders are recorded only on paths that move their coins into the (global / pair) escrow; requests and orders are refunded at most once, from the right escrow to the stored requester, from their own coins; farming moves coins into the module on the recording path and un-farming is bounded by the recorded amount; pool coins are minted/burnt only by pool creation and the executors, and a burn is followed by the zero-supply test that disables the pool; per-farmer queue records do not inherit entries accumulated across farmers. NOT covered: the balance inequalities as numbers, batch interleavings.",
+    "DESIGN.md §3 C04")
+
 NOT_APPLICABLE = {
     "C18": "purely numeric relations between evaluations of accrual/rate functions (non-negativity, monotonicity, sub-additivity, continuity; one path through float64 math.Pow); no guard, pairing, provenance or ordering is a necessary condition of them, so no sound static argument in reach applies (DESIGN.md §3 C18, §4).",
 }
